@@ -552,7 +552,8 @@ func ruleIgnorableSiblings(c *Ctx, rule string) {
 		out := map[string]bool{}
 		instrsOf(fn, func(in ssa.Instruction) {
 			b, ok := in.(*ssa.BinOp)
-			if !ok || b.Op != token.EQL {
+			if !ok || (b.Op != token.EQL && b.Op != token.NEQ) {
+				// `kind == WS || kind == COMMENT` (skip) and `kind != WS && kind != COMMENT` (keep) name the same kinds
 				return
 			}
 			if k, ok := b.Y.(*ssa.Const); ok && k.Value != nil && types.Identical(k.Type(), tokT) {
